@@ -236,6 +236,7 @@ package core
 //@ extern (net/http.ResponseWriter).Write(b)
 //@   modifies ghost(self).started, ghost(self).status, gvar unflushed
 //@   records unflushed = old(unflushed) + len(b)
+//@   ensures !errorsAs(res1, "*ResponseStartedError") && !errorsIs(res1, ErrCircuitOpen)
 //@   ensures ghost(self).started && (!old(ghost(self).started) ==> ghost(self).status == 200) && (old(ghost(self).started) ==> ghost(self).status == old(ghost(self).status))
 
 //@ extern net/http.Error(w, error, code)
@@ -362,7 +363,7 @@ package core
 //@ func AutoDetectStreamingMode
 //@   property C18
 //@   safety
-//@   requires resp != nil && resp.Header != nil
+//@   requires resp != nil
 //@   ensures profile == "standard" ==> !res
 //@   ensures profile == "streaming" ==> res
 //@   ensures profile != "standard" && contains(lower(hdrGet(resp.Header, "Content-Type")), "text/event-stream") ==> res
@@ -373,6 +374,7 @@ package core
 //@   trusted
 //@   modifies ghost remaining
 //@   ensures 0 <= res0 && res0 <= len(p)
+//@   ensures !errorsAs(res1, "*ResponseStartedError") && !errorsIs(res1, ErrCircuitOpen)
 
 // ---- C19, engine scope: requests counted by the engine vs. attempts recorded as success / failure
 //@ ghost var reqCount int
@@ -381,3 +383,7 @@ package core
 //@   trusted
 //@   modifies gvar reqCount
 //@   records reqCount = old(reqCount) + 1
+
+//@ extern time.NewTimer(d)
+//@   trusted
+//@   ensures res != nil
